@@ -142,6 +142,8 @@ def c03(ctx, res):
     ctx.gen_replay(res, "encv", "MC_C03.tla", "MC_C03_pfx_quick.cfg" if ctx.quick else "MC_C03_pfx_thorough.cfg", procs=8)
     # ... and with NO attribute prefix (SetAttrPrefix("") / PrependAttrWithHyphen(false)): no key is an attribute
     ctx.gen_replay(res, "encv", "MC_C03.tla", "MC_C03_nopfx_quick.cfg" if ctx.quick else "MC_C03_nopfx_thorough.cfg", procs=8)
+    # code -> spec: recorded sessions, Map.Xml() of random JSON-shaped values (depth <= 4) under the session's prefixes / escaping / empty-element syntax
+    xml_trace(ctx, res, "encv")
     res.assumptions += ["scalars are rendered by Go's %v; number formatting is trusted (tokens are canonical: 1.5, true)",
                         "domain: the text key and attribute keys hold non-nil scalars; a single top-level key is a valid element name"]
 
